@@ -2,6 +2,7 @@
 from facts import Sym, path_is, strip_generics, strip_sym, sym_arg, sym_calls, sym_is_call, sym_str, sym_through, sym_walk, walk
 from props.common import RECORDER_METHODS, arg_syms, callee_method_name, crate_stats, enum_arms, gates, in_cycle, kind_consistent, need, nonforeign_calls, one_method, recorder_impls, siblings_isomorphic
 
+KEEP = ["build", "install", "into_inner"]  # WeakRecorder::from_arc and other private helpers are spliced into their callers
 TITLE = "C20 a recoverable recorder is live until recovered, inert and dropped once after."
 CONFIGS = ["test-profile"]
 RM = "metrics_util::recoverable"
@@ -38,27 +39,65 @@ def run(ctx):
             b = f.body
             kind = name.split("_")[1]
             kind_consistent(chk, "C20.a", f, kind)
+            from facts import PredFlow
+            from props.common import actual_of
+
             up = [c for c in nonforeign_calls(f) if c.fn is f and c.is_("Weak<T, A>::upgrade", "Weak<T>::upgrade")]
             inner = [c for c in nonforeign_calls(f) if (c.t.get("trait") or "").endswith("recorder::Recorder")]
             ok = len(up) == 1 and len(inner) == 1 and callee_method_name(inner[0]) == name
             detail = f"upgrade calls: {len(up)}, inner calls: {[callee_method_name(c) for c in inner]}"
             if ok:
                 ua = strip_sym(arg_syms(up[0])[0])
-                ok = ua[0] == "field" and ua[2] == "recorder" and is_param(ua[1], 0)
-                g = gates(b, inner[0].bb)
-                ok = ok and any(lab == "Some" and sym_is_call(dd, "upgrade") for dd, lab in g)
+                ok = ua[0] == "field" and is_param(ua[1], 0)  # the wrapper's (only) field: the Weak
+
+                def is_up(x):
+                    return sym_is_call(x, "upgrade") and "Weak" in str(strip_sym(x)[1])
+
+                pf = PredFlow(f, lambda subj, v: {"Some": "P", "None": "N"}.get(v) if is_up(subj) else None)  # P = "upgrade() gave a live Arc"
+                SOME_ONLY = ("Option<T>::map", "Option<T>::and_then", "Option<T>::map_or", "Option<T>::map_or_else", "Option<T>::inspect", "Option<T>::is_some_and")
+
+                def live(cs, depth=0):
+                    """(is the call reached only while an upgraded Arc exists, does its receiver come from that Arc)"""
+                    g_ = cs.fn
+                    if g_ is f:
+                        return pf.at(cs.bb) == "P"
+                    par_ = g_.parent
+                    if par_ is None or depth > 4:
+                        return False
+                    for h_ in par_.region():
+                        hs = Sym(h_)
+                        for c in h_.body.calls():
+                            a_ = [hs.operand(x) for x in c.args]
+                            mine = [i for i, x in enumerate(a_) if strip_sym(x)[0] == "agg" and strip_sym(x)[1] == "closure" and strip_sym(x)[5] == g_.path]
+                            if not mine:
+                                continue
+                            if c.is_("Fn::call", "FnMut::call_mut", "FnOnce::call_once") and mine == [0]:
+                                return live(c, depth + 1)
+                            if c.is_(*SOME_ONLY) and mine[-1] == len(a_) - 1 and is_up(a_[0]):
+                                return True
+                    return False
+
+                is_live = live(inner[0])
                 a = arg_syms(inner[0])
-                recv = strip_sym(sym_through(a[0], "Deref::deref"))
-                through_arc = any(isinstance(x, tuple) and x and x[0] == "call" and sym_is_call(x, "upgrade") for x in sym_walk(a[0]))
-                args_ok = all(is_param(strip_sym(a[i]), i) for i in range(1, len(a)))
-                # the upgraded Arc is dropped only after the inner call
-                arcs = [i for i in range(b.n) if b.term(i)["k"] == "drop" and "alloc::sync::Arc<" in b.term(i)["pty"] and not b.blocks[i].get("cleanup")]
-                alive = bool(arcs) and all(b.dominates(inner[0].bb, d) for d in arcs if d in b.reachable(inner[0].bb)) and all(inner[0].bb not in b.reachable(d) for d in arcs)
-                ok = ok and through_arc and args_ok and alive
-                detail = f"through the upgraded Arc: {through_arc}; arguments unchanged: {args_ok}; Arc alive across the call: {alive}"
+                recv0 = actual_of(inner[0].fn, a[0])
+                through_arc = any(isinstance(x, tuple) and x and x[0] == "call" and is_up(x) for x in sym_walk(recv0)) or (inner[0].fn is not f and sym_arg(sym_through(a[0], "Deref::deref", "AsRef::as_ref")) is not None and is_live)
+                if inner[0].fn is f:
+                    args_ok = all(is_param(strip_sym(a[i]), i) for i in range(1, len(a)))
+                else:
+                    args_ok = all("('arg', %d" % i in repr(a[i]) for i in range(1, len(a)))
+                alive = True
+                if inner[0].fn is f:
+                    # the upgraded Arc is dropped only after the inner call
+                    arcs = [i for i in range(b.n) if b.term(i)["k"] == "drop" and "alloc::sync::Arc<" in b.term(i)["pty"] and not b.blocks[i].get("cleanup")]
+                    alive = bool(arcs) and all(b.dominates(inner[0].bb, d) for d in arcs if d in b.reachable(inner[0].bb)) and all(inner[0].bb not in b.reachable(d) for d in arcs)
+                ok = ok and is_live and through_arc and args_ok and alive
+                detail = f"reached only with a live upgraded Arc: {is_live}; through the upgraded Arc: {through_arc}; arguments unchanged: {args_ok}; Arc alive across the call: {alive}"
                 if ok and name.startswith("register"):
                     noop = [c for c in nonforeign_calls(f) if c.is_(f"{kind.capitalize()}::noop")]
-                    ok = len(noop) == 1 and any(lab == "None" and sym_is_call(dd, "upgrade") for dd, lab in gates(b, noop[0].bb))
+                    dead_edge = len(noop) == 1 and (pf.at(noop[0].bb) == "N" if noop[0].fn is f else True)
+                    # or handed to unwrap_or_else / map_or_else as the fallback of the upgrade chain
+                    as_fallback = any(c.is_("Option<T>::unwrap_or_else", "Option<T>::map_or_else", "Option<T>::unwrap_or", "Option<T>::map_or") and f"{kind.capitalize()}::noop" in repr(arg_syms(c)) for c in nonforeign_calls(f) if c.fn is f)
+                    ok = dead_edge or as_fallback
                     detail = "the dead edge does not return the matching noop handle"
             chk.ob("C20.a", f"{f.path}", ok, f"{name}: upgrade() -> Some(arc) => arc.{name}(args) ; None => {'noop handle' if name.startswith('register') else 'nothing'}" if ok else f"{name} does not enter the wrapped recorder exclusively through a live Weak::upgrade() guard ({detail}): an emission may run inside the recorder while it is being recovered/dropped, or reach the wrong method", f.loc())
         for grp in ("describe", "register"):
@@ -76,10 +115,22 @@ def run(ctx):
         detail = f"{len(tu)} try_unwrap calls"
         if ok:
             a = strip_sym(arg_syms(tu[0])[0])
-            own = a[0] == "field" and a[2] == "handle"
+            def flat(x):
+                x = strip_sym(x)
+                if x[0] == "phi":
+                    return [z for y in x[1] for z in flat(y)]
+                return [x]
+
+            own = all(x[0] == "field" and x[2] == "handle" for x in flat(a))
             ret = strip_sym(sy.local(0))
             alts = ret[1] if ret[0] == "phi" else [ret]
-            from_ok = all((strip_sym(x)[0] == "field" and strip_sym(strip_sym(x)[1])[0] == "downcast" and strip_sym(strip_sym(x)[1])[2] == "Ok" and sym_is_call(strip_sym(strip_sym(x)[1])[1], "try_unwrap")) or (strip_sym(x)[0] == "downcast" and strip_sym(x)[2] == "Ok") for x in alts)
+            def is_try(y):
+                y = strip_sym(y)
+                if sym_is_call(y, "Result<T, E>::map_err"):  # map_err leaves the Ok payload alone
+                    y = strip_sym(y[2][0])
+                return sym_is_call(y, "try_unwrap")
+
+            from_ok = all((strip_sym(x)[0] == "field" and strip_sym(strip_sym(x)[1])[0] == "downcast" and strip_sym(strip_sym(x)[1])[2] == "Ok" and is_try(strip_sym(strip_sym(x)[1])[1])) or (strip_sym(x)[0] == "downcast" and strip_sym(x)[2] == "Ok") for x in alts)
             arms = enum_arms(ii, "result::Result")
             err = (arms or {}).get("Err")
             retry = err is not None and tu[0].bb in b.reachable(err["target"]) and not any(b.term(x)["k"] == "return" for x in b.reachable(err["target"], cut={tu[0].bb}))
@@ -104,11 +155,14 @@ def run(ctx):
     bld = one_method(chk, "C20.b", u, f"{RM}::RecoverableRecorder", "build")
     if bld:
         r = strip_sym(Sym(bld).local(0))
-        ok = r[0] == "agg" and r[1] == "tuple" and len(r[3]) == 2 and sym_is_call(r[3][0], "WeakRecorder<R>::from_arc") and "'handle'" in repr(strip_sym(r[3][0])[2][0])
+        ok = r[0] == "agg" and r[1] == "tuple" and len(r[3]) == 2
+        if ok:
+            w = strip_sym(r[3][0])
+            ok = w[0] == "agg" and (w[5] or "").endswith("recoverable::WeakRecorder") and len(w[3]) == 1 and sym_is_call(w[3][0], "Arc<T, A>::downgrade", "Arc<T>::downgrade") and "'handle'" in repr(strip_sym(w[3][0])[2][0])
         if ok:
             h = strip_sym(r[3][1])
             ok = h[0] == "agg" and "handle" in h[4] and strip_sym(h[3][0])[0] == "field" and strip_sym(h[3][0])[2] == "handle"
-        chk.ob("C20.b", bld.path, ok, "build() = (WeakRecorder::from_arc(&self.handle), RecoveryHandle { handle: self.handle })" if ok else "build() does not hand the only strong reference to the RecoveryHandle and a weak one to the wrapper", bld.loc())
+        chk.ob("C20.b", bld.path, ok, "build() = (WeakRecorder { Arc::downgrade(&self.handle) }, RecoveryHandle { handle: self.handle })" if ok else "build() does not hand the only strong reference to the RecoveryHandle and a weak one to the wrapper", bld.loc())
 
     # ---------------- C20.c
     adts = {n: a for n, a in u.adts.items() if n.startswith(RM + "::")}
@@ -120,11 +174,16 @@ def run(ctx):
         ht = {f["name"]: f["ty"] for f in rh["variants"][0]["fields"]}
         ok = list(wt.values()) == ["alloc::sync::Weak<R>"] and list(ht.values()) == ["alloc::sync::Arc<R>"]
     chk.ob("C20.c", "recoverable [field types]", ok, "WeakRecorder holds Weak<R>; RecoveryHandle holds the Arc<R>" if ok else "the installed wrapper does not hold only a Weak reference (a strong reference there keeps the recorder alive and into_inner never returns)", f"{wr['file']}:{wr['ln']}" if wr else "")
-    fa = one_method(chk, "C20.c", u, f"{RM}::WeakRecorder", "from_arc")
-    if fa:
-        r = strip_sym(Sym(fa).local(0))
-        ok = r[0] == "agg" and sym_is_call(r[3][0], "Arc<T, A>::downgrade", "Arc<T>::downgrade") and is_param(strip_sym(r[3][0])[2][0], 0)
-        chk.ob("C20.c", fa.path, ok, "from_arc = Arc::downgrade(recorder)" if ok else "the wrapper's reference is not made with Arc::downgrade", fa.loc())
+    # every WeakRecorder ever built holds a reference made by Arc::downgrade (helpers spliced in)
+    built = []
+    for f in u.fns:
+        if f.parent is None and (f.path.startswith(RM + "::") or f"<{RM}::" in f.path) and "::tests::" not in f.path and not f.j.get("derived"):
+            sy_ = Sym(f)
+            for i, k, st in f.body.stmts():
+                if st["k"] == "assign" and st["rv"]["k"] == "agg" and (st["rv"].get("adt") or "").endswith("recoverable::WeakRecorder"):
+                    built.append((f, strip_sym(sy_.operand(st["rv"]["ops"][0]))))
+    okb = bool(built) and all(sym_is_call(v, "Arc<T, A>::downgrade", "Arc<T>::downgrade") for _, v in built)
+    chk.ob("C20.c", "recoverable [wrapper reference made by Arc::downgrade]", okb, f"{len(built)} construction site(s) of WeakRecorder, each from Arc::downgrade" if okb else "the wrapper's reference is not made with Arc::downgrade", "metrics-util/src/recoverable.rs")
     mod_fns = [f for f in u.fns if f.path.startswith(RM + "::") or f"<{RM}::" in f.path]
     mod_fns = [f for f in mod_fns if "::tests::" not in f.path and not f.j.get("derived")]
     bad = []
@@ -138,7 +197,8 @@ def run(ctx):
                 bad.append(f"{f.name}: Arc::clone")
     chk.ob("C20.c", "recoverable [no count peeking / strong clones]", not bad, f"{len(mod_fns)} functions: liveness is decided only by upgrade()/try_unwrap()" if not bad else f"reference counts are peeked at or strong clones are made: {bad} — a count check followed by a raw borrow/unwrap is not atomic with concurrent emissions", "metrics-util/src/recoverable.rs")
     unsafe_blocks = []
-    for f in mod_fns:
+    raw = getattr(u, "raw_fns", None) or u.fns  # HIR is per source function: include the helpers that were spliced away
+    for f in [x for x in raw if (x.path.startswith(RM + "::") or f"<{RM}::" in x.path) and "::tests::" not in x.path and not x.j.get("derived")]:
         if f.j.get("unsafe"):
             unsafe_blocks.append(f.name)
         if f.hir is not None and any(n.get("k") == "Block" and n.get("unsafe") for n in walk(f.hir)):
